@@ -124,6 +124,13 @@ class Unit:
         keep = tuple(x for x in kw.get('derive', '').split(',') if x)
         t = self.rw.strip_comments(text)
         t = self.rw.strip_attrs(t, keep)
+        if kw.get('derive_add'):
+            # e.g. vstd's `Structural`: tells Verus that the derived `==` is structural equality
+            if '#[derive(' in t:
+                t = t.replace('#[derive(', '#[derive(%s, ' % kw['derive_add'], 1)
+            else:
+                t = '#[derive(%s)]\n' % kw['derive_add'] + t
+            self.rw.hit('W0.derive_structural')
         t = self.rw.pub_crate(t)
         rules = [r for r in kw.get('rules', '').split(',') if r]
         t = self.rw.apply(t, rules)
@@ -200,8 +207,15 @@ class Unit:
         try:
             it = src.find(kind, name)
         except LookupError as e:
+            if kw.get('optional'):
+                return
             raise AnchorLost(str(e))
         t = self.clean_item_text(src.text[it.start:it.end], kw)
+        if kind in ('struct', 'enum', 'type', 'const', 'trait'):
+            t2 = re.sub(r'^(\s*(?:#\[[^\]]*\]\s*)*)(?!pub\b)(struct|enum|type|const|trait)\b', r'\1pub \2', t, count=1)
+            if t2 != t:
+                self.rw.hit('W0.item_pub')
+                t = t2
         self.extracted.append((rel, '%s %s' % (kind, name)))
         self.emit_mapped(t, src.text[it.start:it.end], rel, src.text.count('\n', 0, it.start) + 1)
 
@@ -224,6 +238,12 @@ class Unit:
         src = self.src(rel)
         try:
             it = src.find_impl(header)
+        except LookupError as e:
+            raise AnchorLost(str(e))
+        self.emit_from_impl(src, it, rel, None, kw)
+
+    def emit_from_impl(self, src, it, rel, line_override, kw):
+        try:
             fn = src.find('fn', 'from', within=it)
         except LookupError as e:
             raise AnchorLost(str(e))
@@ -231,8 +251,14 @@ class Unit:
         t = self.clean_item_text(raw, kw)
         t = re.sub(r'\bfn from\(\s*_\s*:', 'fn from(_e:', t)
         first = len(self.lines)
-        self.emit_mapped(t, raw, rel, src.text.count('\n', 0, it.start) + 1)
-        self.fns.append((first + 1, len(self.lines), header, header, rel, it.line))
+        line0 = line_override if line_override is not None else src.text.count('\n', 0, it.start) + 1
+        if line_override is not None:
+            self.emit(t, ('src', rel, line0))
+            for k in range(len(t.split('\n'))):
+                self.origin[-1 - k] = ('src', rel, line0)
+        else:
+            self.emit_mapped(t, raw, rel, line0)
+        self.fns.append((first + 1, len(self.lines), it.header, it.header, rel, line0))
         hm = re.match(r'impl\s*(<[^>]*>)?\s*From<(.*)>\s+for\s+(.+?)(\s+where\s+.*)?$', it.header)
         if not hm:
             raise Unsupported('fromimpl: cannot parse header ' + it.header)
@@ -245,7 +271,7 @@ class Unit:
         body = self.rw.strip_comments(fn.body_text())[1:-1]
         body = re.sub(r'debug_assert!\([^;]*\);', '', body).strip()
         body = re.sub(r'\b(\w+)\.into\(\)', r'vstd::std_specs::convert::FromSpec::from_spec(\1)', body)
-        if ';' in mask(body) or re.search(r'\b(let|if|match)\b', mask(body)):
+        if ';' in mask(body) or re.search(r'\b(let)\b', mask(body)):
             raise Unsupported('fromimpl: body of %s is not a single constructor expression' % it.header)
         glue = ('impl%s vstd::std_specs::convert::FromSpecImpl<%s> for %s%s {\n'
                 '    open spec fn obeys_from_spec() -> bool { true }\n'
@@ -254,9 +280,9 @@ class Unit:
             if '=>' in sub:
                 a1, b1 = sub.split('=>', 1)
                 glue = glue.replace(a1, b1)
-        self.emit(glue, ('src', rel, it.line))
+        self.emit(glue, ('src', rel, line0))
         self.rw.hit('W0.from_spec_glue')
-        self.extracted.append((rel, header))
+        self.extracted.append((rel, it.header))
 
     def do_expand(self, rel, macro, kw):
         src = self.src(rel)
@@ -275,11 +301,24 @@ class Unit:
             if parts:
                 sub = Src(rel + '#expansion', text)
                 keep = []
+                from_items = []
                 for sit in sub.items():
-                    tag = sit.kind if sit.kind != 'impl' else sit.header
                     if any((p == sit.kind) or (sit.kind == 'impl' and re.search(p, sit.header)) for p in parts):
-                        keep.append(sub.text[sit.start:sit.end])
+                        if sit.kind == 'impl' and re.match(r'impl\s*(<[^>]*>)?\s*From<', sit.header):
+                            from_items.append(sit)
+                        else:
+                            keep.append(sub.text[sit.start:sit.end])
                 text = '\n'.join(keep)
+                if text.strip():
+                    t = self.clean_item_text(text, kw)
+                    self.emit(t, ('src', rel, line))
+                    for k in range(len(t.split('\n'))):
+                        self.origin[-1 - k] = ('src', rel, line)
+                for sit in from_items:
+                    self.emit_from_impl(sub, sit, rel, line, kw)
+                self.extracted.append((rel, '%s!(%s)' % (macro, ', '.join(margs))))
+                self.rw.hit('W0.macro_expanded')
+                continue
             t = self.clean_item_text(text, kw)
             self.extracted.append((rel, '%s!(%s)' % (macro, ', '.join(margs))))
             self.rw.hit('W0.macro_expanded')
@@ -333,7 +372,9 @@ class Unit:
         rules = [r for r in kw.get('rules', '').split(',') if r]
         b = self.rw.strip_comments(body)
         b = self.rw.pub_crate(b)
+        self.rw.w9_skip = kw.get('w9skip')
         b = self.rw.apply(b, rules)
+        self.rw.w9_skip = None
         for sub in kw.get('sub', '').split(';;'):
             if '=>' in sub:
                 a, c = sub.split('=>', 1)
